@@ -496,7 +496,7 @@ impl Prop for C04T {
         "C04"
     }
     fn budget(&self, thorough: bool) -> u64 {
-        if thorough { 20_000_000 } else { 600_000 }
+        if thorough { 20_000_000 } else { 2_000_000 }
     }
     fn generate(&self, seed: u64, _thorough: bool) -> Scenario {
         let mut rng = Rng::new(seed);
